@@ -29,7 +29,7 @@ LedgerTypes == {101, 103, 105, 108, 110, 112, 113, 114, 115, 116, 120, 121,
                 200, 202, 203, 204, 205, 206, 207, 208, 209, 210, 212, 213,
                 300, 303, 304, 348, 349, 350, 351, 352, 353, 355,
                 370, 371, 380, 381, 382, 400, 410, 411, 500}
-LedgerVariants == {"ok", "empty", "absent", "exists", "short"}
+LedgerVariants == {"ok", "empty", "absent", "exists", "short", "long"}   \* long: every text-like field carries 300 or 9000 bytes with CR LF inside
 LedgerCases == {[type |-> t, variant |-> v] : t \in LedgerTypes, v \in LedgerVariants}
 (* (emitted by Gen_OutboxLedger: TLC evaluates constant definitions eagerly, so the printing operator lives there) *)
 Emit == AllSent' => PrintT("B " \o ToJson([sizes |-> txs, order |-> hist']))
